@@ -1,6 +1,14 @@
+#[cfg(not(may_verif))]
 use parking_lot::{Condvar, Mutex};
+#[cfg(may_verif)]
+use crate::verif::lock::{Condvar, Mutex};
 
+#[cfg(not(may_verif))]
 use std::sync::atomic::{AtomicBool, Ordering};
+#[cfg(may_verif)]
+use crate::verif::atomic::AtomicBool;
+#[cfg(may_verif)]
+use std::sync::atomic::Ordering;
 use std::sync::Arc;
 use std::time::Duration;
 
